@@ -1287,16 +1287,13 @@ VARIANTS = [
       (BASE, "    def _resolve_forward_refs(self, done: list, local_vars=None, ignore_errors: bool = True):",
        "    def _do_resolve(self, done: list, local_vars=None, ignore_errors: bool = True):")),
     G("benign C18: stage options built through a helper variable",
-      (RULE, """                strict_options = utype.Options(
-                    no_data_loss=True, no_explicit_cast=True,""", """                stage = utype.Options(
-                    no_data_loss=True, no_explicit_cast=True,"""),
-      (RULE, """                    with context.enter(cls.combinator, options=strict_options) as new_context:""",
-       """                    with context.enter(cls.combinator, options=stage) as new_context:""")),
-    B("C11 revert F41: strict union stage keeps the caller's policies", "C11", "R11e",
-      (RULE, """                    no_data_loss=True, no_explicit_cast=True,
-                    invalid_items='throw', invalid_keys='throw', invalid_values='throw'
-                )""", """                    no_data_loss=True, no_explicit_cast=True,
-                )""")),
+      (RULE, """                strict_options = utype.Options(no_data_loss=True, no_explicit_cast=True)
+
+                for con in cls.args:
+                    with context.enter(cls.combinator, options=strict_options) as new_context:""", """                stage = utype.Options(no_data_loss=True, no_explicit_cast=True)
+
+                for con in cls.args:
+                    with context.enter(cls.combinator, options=stage) as new_context:""")),
     G("benign C06: used-alias set renamed",
       (BASE, "        used_alias = set()", "        consumed = set()"),
       (BASE, "            used_alias.update(field.all_aliases)", "            consumed.update(field.all_aliases)"),
